@@ -10,34 +10,42 @@
 EXTENDS Naturals, Sequences, FiniteSets, TLC
 
 CONSTANTS Writers,        \* writer process ids (each writes its own complete content "w")
-          Chunks,         \* a complete content is written in this many write steps
+          Chunks,         \* the largest content is written in this many write steps
+          Sizes,          \* SUBSET 1..Chunks: the lengths contents may have (a writer's length is chosen freely);
+                          \* a later writer may publish a SHORTER content than an earlier, interrupted one wrote
+          BUG_FIXEDTMP,   \* one fixed temporary name per target, opened without truncation
           HasOld,         \* a complete previous file exists under the target name
           BUG_INPLACE,    \* write into the target name directly (open + truncate)
           BUG_TMPEXT,     \* the temporary file carries a Spec extension
           BUG_NOCLEAN     \* a failed rename leaves the temporary file behind (harmless unless BUG_TMPEXT)
 
 VARIABLES dir,     \* name -> inode (0 = no entry)
-          ino,     \* inode -> [owner, len]  owner = "old" or a writer id; len in 0..Chunks
+          ino,     \* inode -> [owner, len, ext]  owner = "old" or a writer id; len = chunks the owner has written,
+                   \*          ext = extent of the file (> len when an earlier owner's data lie beyond)
+          size,    \* writer -> length of its content
           nino,    \* next free inode
           wpc,     \* writer -> program counter
           wino,    \* writer -> inode of its open file (0 none)
           spc, sopen, sseen   \* scanner: program counter, opened inode, contents it has read
 
-vars == <<dir, ino, nino, wpc, wino, spc, sopen, sseen>>
+vars == <<dir, ino, size, nino, wpc, wino, spc, sopen, sseen>>
 
-TmpName(w) == <<"tmp", w>>
+TmpName(w) == IF BUG_FIXEDTMP THEN <<"tmp", "shared">> ELSE <<"tmp", w>>
 Target == <<"target">>
 Names == {Target} \cup { TmpName(w) : w \in Writers }
 \* which names does a directory scan load?  the target always; a temp name only if it has a Spec extension
 SpecNamed(n) == n = Target \/ BUG_TMPEXT
 MaxIno == 1 + 2 * Cardinality(Writers)
 
-Complete(i) == ino[i].len = Chunks
-NoIno == [owner |-> "none", len |-> 0]
+SizeOf(o) == IF o = "old" THEN Chunks ELSE size[o]
+\* the whole content of its owner and nothing else
+Complete(i) == ino[i].len = SizeOf(ino[i].owner) /\ ino[i].ext = ino[i].len
+NoIno == [owner |-> "none", len |-> 0, ext |-> 0]
 
 Init ==
   /\ dir = [n \in Names |-> IF n = Target /\ HasOld THEN 1 ELSE 0]
-  /\ ino = [i \in 1..MaxIno |-> IF i = 1 /\ HasOld THEN [owner |-> "old", len |-> Chunks] ELSE NoIno]
+  /\ ino = [i \in 1..MaxIno |-> IF i = 1 /\ HasOld THEN [owner |-> "old", len |-> Chunks, ext |-> Chunks] ELSE NoIno]
+  /\ size \in [Writers -> Sizes]
   /\ nino = 2
   /\ wpc = [w \in Writers |-> "create"]      \* validate, marshal and MkdirAll touch no Spec name
   /\ wino = [w \in Writers |-> 0]
@@ -49,67 +57,72 @@ WName(w) == IF BUG_INPLACE THEN Target ELSE TmpName(w)
 Create(w) ==
   /\ wpc[w] = "create"
   /\ IF BUG_INPLACE /\ dir[Target] # 0
-     THEN /\ ino' = [ino EXCEPT ![dir[Target]] = [owner |-> w, len |-> 0]]
+     THEN /\ ino' = [ino EXCEPT ![dir[Target]] = [owner |-> w, len |-> 0, ext |-> 0]]
           /\ wino' = [wino EXCEPT ![w] = dir[Target]]
           /\ UNCHANGED <<dir, nino>>
+     ELSE IF BUG_FIXEDTMP /\ dir[TmpName(w)] # 0
+     THEN \* open(O_CREATE) without O_TRUNC of a left-over temporary file: the old bytes stay
+          /\ ino' = [ino EXCEPT ![dir[TmpName(w)]] = [owner |-> w, len |-> 0, ext |-> @.ext]]
+          /\ wino' = [wino EXCEPT ![w] = dir[TmpName(w)]]
+          /\ UNCHANGED <<dir, nino>>
      ELSE /\ dir' = [dir EXCEPT ![WName(w)] = nino]
-          /\ ino' = [ino EXCEPT ![nino] = [owner |-> w, len |-> 0]]
+          /\ ino' = [ino EXCEPT ![nino] = [owner |-> w, len |-> 0, ext |-> 0]]
           /\ wino' = [wino EXCEPT ![w] = nino]
           /\ nino' = nino + 1
   /\ wpc' = [wpc EXCEPT ![w] = "write"]
-  /\ UNCHANGED <<spc, sopen, sseen>>
+  /\ UNCHANGED <<size, spc, sopen, sseen>>
 
-CreateFails(w) == wpc[w] = "create" /\ wpc' = [wpc EXCEPT ![w] = "failed"] /\ UNCHANGED <<dir, ino, nino, wino, spc, sopen, sseen>>
+CreateFails(w) == wpc[w] = "create" /\ wpc' = [wpc EXCEPT ![w] = "failed"] /\ UNCHANGED <<dir, ino, size, nino, wino, spc, sopen, sseen>>
 
 \* one write(2) call transfers one chunk; the kernel may accept a prefix and then fail
 WriteChunk(w) ==
-  /\ wpc[w] = "write" /\ ino[wino[w]].len < Chunks
-  /\ ino' = [ino EXCEPT ![wino[w]].len = @ + 1]
-  /\ wpc' = [wpc EXCEPT ![w] = IF ino[wino[w]].len + 1 = Chunks THEN "close" ELSE "write"]
-  /\ UNCHANGED <<dir, nino, wino, spc, sopen, sseen>>
+  /\ wpc[w] = "write" /\ ino[wino[w]].len < size[w]
+  /\ ino' = [ino EXCEPT ![wino[w]] = [@ EXCEPT !.len = @ + 1, !.ext = IF ino[wino[w]].len + 1 > @ THEN ino[wino[w]].len + 1 ELSE @]]
+  /\ wpc' = [wpc EXCEPT ![w] = IF ino[wino[w]].len + 1 = size[w] THEN "close" ELSE "write"]
+  /\ UNCHANGED <<dir, size, nino, wino, spc, sopen, sseen>>
 
 \* disk full / file size limit: the write fails at this offset; the code closes and returns
 \* the error, the temporary file stays
 WriteFails(w) ==
   /\ wpc[w] = "write"
   /\ wpc' = [wpc EXCEPT ![w] = "failed"] /\ wino' = [wino EXCEPT ![w] = 0]
-  /\ UNCHANGED <<dir, ino, nino, spc, sopen, sseen>>
+  /\ UNCHANGED <<dir, ino, size, nino, spc, sopen, sseen>>
 
 Close(w) ==
   /\ wpc[w] = "close"
   /\ wino' = [wino EXCEPT ![w] = 0]
   /\ wpc' = [wpc EXCEPT ![w] = IF BUG_INPLACE THEN "done" ELSE "rename"]
-  /\ UNCHANGED <<dir, ino, nino, spc, sopen, sseen>>
+  /\ UNCHANGED <<dir, ino, size, nino, spc, sopen, sseen>>
 
 \* renameat2(dirfd, tmp, dirfd, target): the target entry switches atomically
 Rename(w) ==
-  /\ wpc[w] = "rename"
+  /\ wpc[w] = "rename" /\ dir[TmpName(w)] # 0
   /\ dir' = [dir EXCEPT ![Target] = dir[TmpName(w)], ![TmpName(w)] = 0]
   /\ wpc' = [wpc EXCEPT ![w] = "done"]
-  /\ UNCHANGED <<ino, nino, wino, spc, sopen, sseen>>
+  /\ UNCHANGED <<ino, size, nino, wino, spc, sopen, sseen>>
 
 RenameFails(w) ==
   /\ wpc[w] = "rename"
   /\ dir' = IF BUG_NOCLEAN THEN dir ELSE [dir EXCEPT ![TmpName(w)] = 0]     \* os.Remove(tmp)
   /\ wpc' = [wpc EXCEPT ![w] = "failed"]
-  /\ UNCHANGED <<ino, nino, wino, spc, sopen, sseen>>
+  /\ UNCHANGED <<ino, size, nino, wino, spc, sopen, sseen>>
 
 \* kill -9 / power-off of the writer process at any point: nothing more happens
 Crash(w) ==
   /\ wpc[w] \in {"create", "write", "close", "rename"}
   /\ wpc' = [wpc EXCEPT ![w] = "crashed"] /\ wino' = [wino EXCEPT ![w] = 0]
-  /\ UNCHANGED <<dir, ino, nino, spc, sopen, sseen>>
+  /\ UNCHANGED <<dir, ino, size, nino, spc, sopen, sseen>>
 
 \* a reader of the directory: picks a Spec-named entry, opens it, reads it to the end
 ScanOpen(n) ==
   /\ spc = "idle" /\ SpecNamed(n) /\ dir[n] # 0
   /\ sopen' = dir[n] /\ spc' = "opened"
-  /\ UNCHANGED <<dir, ino, nino, wpc, wino, sseen>>
+  /\ UNCHANGED <<dir, ino, size, nino, wpc, wino, sseen>>
 ScanRead ==
   /\ spc = "opened"
   /\ sseen' = sseen \cup {ino[sopen]}
   /\ spc' = "idle" /\ sopen' = 0
-  /\ UNCHANGED <<dir, ino, nino, wpc, wino>>
+  /\ UNCHANGED <<dir, ino, size, nino, wpc, wino>>
 
 Next == \/ \E w \in Writers : Create(w) \/ CreateFails(w) \/ WriteChunk(w) \/ WriteFails(w) \/ Close(w)
                                \/ Rename(w) \/ RenameFails(w) \/ Crash(w)
@@ -123,7 +136,7 @@ NoPartialVisible == \A n \in Names : (SpecNamed(n) /\ dir[n] # 0) => Complete(di
 \* an inode linked under a Spec name is never written
 ImmutableVisible == [][\A n \in Names : (SpecNamed(n) /\ dir[n] # 0 /\ dir'[n] = dir[n]) => ino'[dir[n]] = ino[dir[n]]]_vars
 \* whatever a scanner read was complete
-ScannerSeesWhole == \A c \in sseen : c.len = Chunks
+ScannerSeesWhole == \A c \in sseen : c.len = SizeOf(c.owner) /\ c.ext = c.len
 \* after a failed or interrupted write nothing partial or temporary is loadable (the same formula, at rest)
 AfterFailure == (\A w \in Writers : wpc[w] \in {"failed", "crashed", "done"}) => NoPartialVisible
 \* a successful writer's content is what the target holds afterwards, unless another writer finished later
